@@ -131,10 +131,11 @@ theorem announced_where_stored (name ext : Str) (kind flag : Nat) (data : Bytes)
 def Honoured (a b : Image) (p : Nat × FileEv) : Prop :=
   p.1 < 4 ∧ ∃ j r c, j < 112 ∧ imgFileAt a p.1 j = none ∧ imgFileAt b p.1 j = some (r, c)
     ∧ p.2.bytes = c.length ∧ p.2.blocks = reqBlocks c.length
+    ∧ ∃ kind flag, IsRecordOf r p.2.name p.2.ext kind flag c.length
 
 theorem Honoured.mono {a a' b b' : Image} {p : Nat × FileEv} (h : Honoured a b p) (ha : Keeps a' a) (hb : Keeps b b') : Honoured a' b' p := by
-  obtain ⟨hk, j, r, c, hj, hnone, hnew, h1, h2⟩ := h
-  refine ⟨hk, j, r, c, hj, ?_, hb p.1 j _ hk hj hnew, h1, h2⟩
+  obtain ⟨hk, j, r, c, hj, hnone, hnew, h1, h2, h3⟩ := h
+  refine ⟨hk, j, r, c, hj, ?_, hb p.1 j _ hk hj hnew, h1, h2, h3⟩
   cases hq : imgFileAt a' p.1 j with
   | none => rfl
   | some f => have := ha p.1 j f hk hj hq; rw [hnone] at this; cases this
@@ -181,7 +182,27 @@ theorem injFile_sections (w : Tape.World) (src : Str) (hsrc : CleanSrc src) (st 
           rw [hstored] at hp
           simp only [List.mem_singleton] at hp
           subst hp
-          exact ⟨hk4, i0, r, data, hi0, hnone, hnew, rfl, (reqBlocks_formula data.length).symm⟩
+          refine ⟨hk4, i0, r, data, hi0, hnone, hnew, rfl, (reqBlocks_formula data.length).symm,
+            (dispatch (splitSource src).1 (splitSource src).2.1 (splitSource src).2.2.1).1,
+            (dispatch (splitSource src).1 (splitSource src).2.1 (splitSource src).2.2.1).2.1, ?_⟩
+          show IsRecordOf r (splitSource src).1 (dispatch (splitSource src).1 (splitSource src).2.1 (splitSource src).2.2.1).2.2 _ _ data.length
+          -- the entry bytes: the one slot that changed holds the record of this file
+          obtain ⟨s3, hs3, _, hone⟩ := injWriteFile_step (splitSource src).1
+            (dispatch (splitSource src).1 (splitSource src).2.1 (splitSource src).2.2.1).2.2
+            (dispatch (splitSource src).1 (splitSource src).2.1 (splitSource src).2.2.1).1
+            (dispatch (splitSource src).1 (splitSource src).2.1 (splitSource src).2.2.1).2.1 data hname 4 st h
+          rw [hs2] at hs3
+          cases hs3
+          rcases hone with hsame | ⟨k3, i3, hk3, hi3, _, ⟨r3, hr3, hrec3⟩, hrest3⟩
+          · rw [hsame k i0 hk4 hi0, hnone] at hnew; cases hnew
+          · have hki : k = k3 ∧ i0 = i3 := by
+              apply Classical.byContradiction
+              intro hne
+              have := hrest3 k i0 hk4 hi0 hne
+              rw [this, hnone] at hnew; cases hnew
+            rw [← hki.1, ← hki.2, hnew] at hr3
+            cases hr3
+            exact hrec3
         · refine ⟨by intro p hp; rw [hstored] at hp; simp at hp, ?_, fun hb => by cases hb⟩
           intro hlt
           -- nothing stored: the cursor ran past the last side
